@@ -8,7 +8,9 @@
    under an integer clock; HSetTimeout is the
    reconfiguration `machine.get_state(state).timeout = v` at run time (v = 0 switches the timeout off): the
    attribute is read when a state is ENTERED (a timer that is running keeps its deadline), and exit
-   cancels the model's timer whatever the attribute says by then.  The timer objects, the runner dictionary state -> id(model) -> timer, start / cancel /
+   cancels the model's timer whatever the attribute says by then; `HSetHandlers state l` changes the
+   state's on_timeout list at run time: the timer is armed on every entry with timeout > 0 whatever the
+   list holds then, and the handlers registered when it EXPIRES are the ones that run.  The timer objects, the runner dictionary state -> id(model) -> timer, start / cancel /
    is_alive and the overwrite of the runner entry are modelled as the code has them.
    PARTIAL: that threading.Timer / asyncio.sleep call back at the deadline is ASSUMED — it is the
    definition of [tick] (timers due at an instant run at that instant, in creation order, before an
@@ -105,6 +107,23 @@ Example C17_reconfigured :
 Proof. vm_compute. repeat split. Qed.
 Print Assumptions C17_reconfigured.
 
+(* Handlers changed during the visit: state 0 (timeout 3) is created with an EMPTY on_timeout list; model 0
+   enters it at 0 — the timer is armed all the same —, a handler is registered at 1 and runs at 3; the next
+   stay (from 3) has its handler removed at 4: the timeout still expires at 6 (marker) but nothing is called;
+   [fire] runs what [w_ot] holds when the timer expires. *)
+Definition hd_cfg : tcfg :=
+  mkTC true false [(0, mkTS 3 [] [] []); (1, ts_default)]
+       [mkTT 0 1 (Some 0) true; mkTT 0 0 (Some 0) true] true [].
+Definition hd_hist : list top :=
+  [HEvent 0 0; HAdvance 1; HSetHandlers 0 [mkOcb 7 None false; mkOcb 8 (Some (None, 0)) false]; HAdvance 3;
+   HSetHandlers 0 []; HAdvance 3].
+Example C17_handlers_changed :
+  filter handler_kind (run_trace hd_cfg (init_world hd_cfg 1) hd_hist) =
+    [TFired 0 0 3; CTimeout 7 0 0 3; CTimeout 8 0 0 3; TFired 0 0 6] /\
+  spec_C17 hd_cfg 1 1 (run_trace hd_cfg (init_world hd_cfg 1) hd_hist) 7 = true.
+Proof. vm_compute. split; reflexivity. Qed.
+Print Assumptions C17_handlers_changed.
+
 (* Outside the guard the statement is false of the model: an unqueued on_exit callback that triggers a
    state-changing event recurses until the fuel is gone (Python: RecursionError — there is no run of the
    library to compare with); every unwinding level then enters the destination again without the exit
@@ -179,10 +198,10 @@ Print Assumptions C17_validation.
    very timer whose handler is running (and whatever the callbacks of that transition trigger in turn).
    (callback ids are positive: 0 stands for MachineError in on_exception items) *)
 Theorem C17_async_shield : forall (b : bool) (c : tcfg) (w : world) (i : nat) (tm : timer),
-  tc_async c = true -> Inv b w -> pend w i tm -> ids_positive c (tm_state tm) = true ->
+  tc_async c = true -> Inv b w -> pend w i tm -> ids_positive (w_ot w) (tm_state tm) = true ->
   filter is_ctimeout (fst (fire c w i tm)) =
     map (fun cb => CTimeout (oc_id cb) (tm_model tm) (tm_state tm) (w_clock w))
-        (ts_on_timeout (sdef c (tm_state tm))).
+        (w_ot w (tm_state tm)).
 Proof. exact async_shield. Qed.
 Print Assumptions C17_async_shield.
 
@@ -191,9 +210,9 @@ Print Assumptions C17_async_shield.
    (Exception, another BaseException, asyncio.CancelledError raised by awaiting a cancelled task): the
    correspondence check raises all three. *)
 Theorem C17_async_exception : forall (b : bool) (c : tcfg) (w : world) (i : nat) (tm : timer),
-  tc_async c = true -> Inv b w -> pend w i tm -> ids_positive c (tm_state tm) = true ->
+  tc_async c = true -> Inv b w -> pend w i tm -> ids_positive (w_ot w) (tm_state tm) = true ->
   filter is_user_onexc (fst (fire c w i tm)) =
-    match first_raising (ts_on_timeout (sdef c (tm_state tm))) with
+    match first_raising (w_ot w (tm_state tm)) with
     | Some k => map (fun h => COnExc h (tm_model tm) k (w_clock w)) (tc_onexc c)
     | None => []
     end.
